@@ -415,11 +415,11 @@ def part_txt_columns(ctx, shard):
     world.reset_world()
     cols = [("km/s", [1.5, 2.5, 3.5]), ("kpc", [10.0, 20.0, 30.0]), ("g", [0.25, 0.5, 0.75]), ("degC", [5.0, 15.0, 25.0])]
     arrays = [unyt_array(np.array(v), u) for u, v in cols]
-    for delim in shard:
+    for delim, cmt in itertools.product(shard, ("#", "%", "!")):
         fd, fn = tempfile.mkstemp(prefix="c11cols_", suffix=".txt", dir="/tmp")
         os.close(fd)
         try:
-            unyt.savetxt(fn, arrays, delimiter=delim)
+            unyt.savetxt(fn, arrays, delimiter=delim, comments=cmt)
             n = len(cols)
             choices = [None]
             for k in (1, 2, 3):
@@ -427,10 +427,10 @@ def part_txt_columns(ctx, shard):
             choices += [(-1,), (-1, 0), (0, -2), (-3, -1)]
             for uc in choices:
                 ctx.count("evaluations")
-                case = {"part": "txt-columns", "delimiter": delim, "usecols": list(uc) if uc else None}
-                base = f"C11|txt-columns|usecols={'all' if uc is None else ('negative' if any(c < 0 for c in uc) else ('ascending' if list(uc) == sorted(uc) else 'reordered'))}"
+                case = {"part": "txt-columns", "delimiter": delim, "usecols": list(uc) if uc else None, "comments": cmt}
+                base = f"C11|txt-columns|comments={'default' if cmt == '#' else 'other'}|usecols={'all' if uc is None else ('negative' if any(c < 0 for c in uc) else ('ascending' if list(uc) == sorted(uc) else 'reordered'))}"
                 try:
-                    r = unyt.loadtxt(fn, delimiter=delim, usecols=uc) if uc is not None else unyt.loadtxt(fn, delimiter=delim)
+                    r = unyt.loadtxt(fn, delimiter=delim, usecols=uc, comments=cmt) if uc is not None else unyt.loadtxt(fn, delimiter=delim, comments=cmt)
                 except Exception as e:  # noqa: BLE001
                     ctx.violation(base + f"|mode=loadtxt-fails:{type(e).__name__}", case, "arrays", str(e)[:100])
                     continue
